@@ -149,6 +149,7 @@ Qed.
 
 Lemma mdml_cinv d last o x x' : mdml d last o x = Some x' -> Cinv x -> Cinv x'.
 Proof.
+  unfold mdml. destruct (x_ro x); [discriminate|].
   destruct o; simpl; try discriminate; intros H Hc.
   - eapply put_row_some; eauto.
   - destruct (m_put_row d last true t pk1 v1 x) as [x1|] eqn:E1; simpl in H; [|discriminate].
